@@ -48,7 +48,7 @@ worker() {
     elif ! (cd "$D/verif/harness" && cargo build --release --offline >"$D/build.log" 2>&1); then
       status="does-not-compile"
     else
-      for scale in 25 100; do
+      for scale in ${MUT_SCALES:-25 100}; do
         for id in $(order_for "$file"); do
           out=$(cd "$D/verif" && ulimit -v 16000000 && VERIF_ROOT="$D/root" VERIF_SCALE=$scale VERIF_THREADS=$T timeout --signal=KILL 400 "$D/verif/harness/target/release/vcheck" "$id" quick 2>&1); rc=$?
           if [ $rc = 1 ]; then
